@@ -1,7 +1,7 @@
 """C15 — client reads are authenticated against the requested address."""
 from cfg import cfg_of
 from flow import Taint, callee_matches, op_local, prep
-from rules import CallGuard, CallSink, CmpGuard, RetSink
+from rules import CallGuard, CallSink, CmpGuard, RetSink, P, PL
 from props.C04 import call_results
 
 META = {
@@ -28,8 +28,7 @@ def run(R):
         prep(cg)
 
         def src_addr(b):
-            ta = Taint(b)
-            return ta.closure({l for l in ta.var_locals("addr") if l != 1} | _upvar_reads(b, "addr"))
+            return Taint(b).closure(PL(b, 1))  # the requested `addr` parameter
 
         def src_chunk(b):
             ta = Taint(b, through="all")
@@ -44,7 +43,7 @@ def run(R):
 
         def src_req(b):
             ta = Taint(b)
-            return ta.closure(ta.var_locals("scratch_address"))
+            return ta.closure(call_results(["ant_protocol::storage::address::scratchpad::ScratchpadAddress::new"])(b))
 
         def src_pad_addr(b):
             ta = Taint(b)
